@@ -35,7 +35,8 @@ def values(tier, seed):
     vals = [0, 1, -1, 2 ** 62, -(2 ** 63), 7, 0.1, 1e-9, 2.5, 1 / 3, 1e300, -0.0, 123456.789,
             Decimal("1.50"), Decimal("1E+3"), Decimal("0.000000000000000000000000000001"),
             Decimal("12345678901234567890.1234567890123456789"), Decimal("-7.000"),
-            "w/5", "2*x", "", "1.5", "1e-9", " 3 ", "nan", "inf", "abc def", "0x10", h.Literal("a+b"), h.Literal("")]
+            "w/5", "2*x", "", "1.5", "1e-9", "1E-9", "2.5E6", "-7E+3", "1_0", ".5", "5.", "+3", " 3 ", "nan", "inf", "abc def",
+            "0x10", str(Decimal("1E-9")), str(Decimal("12E+7")), h.Literal("a+b"), h.Literal("")]
     for p in Prefix:
         for m in ("1", "1.50", "-0.000123", "12345678901234567890123456789012345678901", "3E+2"):
             vals.append(h.Prefixed(number=Decimal(m), prefix=p))
